@@ -130,6 +130,31 @@ class SymStr:
                 out.append(chr(model.eval(it.e, model_completion=True).as_long()))
         return ''.join(out)
 
+    def encode(self, encoding='utf-8', errors='strict'):
+        """UTF-8 bytes; forks on the byte-length class of every symbolic character."""
+        from .stream import SymByte, norm_bytes
+        if encoding.lower().replace('_', '-') not in ('utf-8', 'utf8'):
+            raise NotImplementedError(encoding)
+        out = []
+        for it in self.items:
+            if isinstance(it, str):
+                out.extend(it.encode('utf-8'))
+                continue
+            e = it.e
+            if SymInt.mk(e) < 0x80:
+                bs = [e]
+            elif SymInt.mk(e) < 0x800:
+                bs = [0xC0 + e / 64, 0x80 + e % 64]
+            elif SymInt.mk(e) < 0x10000:
+                if (SymInt.mk(e) >= 0xD800) & (SymInt.mk(e) <= 0xDFFF):
+                    raise UnicodeEncodeError('utf-8', '?', 0, 1, 'surrogates not allowed')
+                bs = [0xE0 + e / 4096, 0x80 + (e / 64) % 64, 0x80 + e % 64]
+            else:
+                bs = [0xF0 + e / 262144, 0x80 + (e / 4096) % 64, 0x80 + (e / 64) % 64, 0x80 + e % 64]
+            for j, b in enumerate(bs):
+                out.append(SymByte(e=b, origin=(it, j, len(bs))))
+        return norm_bytes(out)
+
     def utf8_len(self):
         """Number of bytes of the UTF-8 encoding (int | SymInt)."""
         total = 0
